@@ -75,4 +75,21 @@ theorem get_saveRec (ks : List String) (attrs : String → Nat) (k : String) (hk
       · exact absurd h.symm e
       · exact ih h
 
+/-! ### the dependency rows of a step across several saves -/
+
+/-- a connection of a step: port id, name, input (`true`) or output -/
+abbrev Dep := Nat × String × Bool
+
+/-- `INSERT OR IGNORE INTO dependency` (primary key (step, port)) -/
+def addDep (deps : List Dep) (d : Dep) : List Dep := if deps.any (·.1 == d.1) then deps else deps ++ [d]
+
+structure StepRec where
+  persisted : Bool
+  deps : List Dep
+
+/-- `Step.save` as far as the `dependency` table goes; `always` = the rows are written outside the first-insert branch -/
+def saveStep (always : Bool) (s : StepRec) (ports : List Dep) : StepRec :=
+  if always || !s.persisted then { persisted := true, deps := ports.foldl addDep s.deps }
+  else s
+
 end SFV.Persist
